@@ -142,7 +142,8 @@ Definition pp_step (c : cfg) (t p : Z) (st : pp) (m : msg) (ab : bool) (stamp : 
       pp_forward c t p st2 m stamp ls (e1 ++ [ENew fin; ESend DCur fin; EUnref])
   else if (0 <? p_hwm st1)%nat then
     if (r <? p_hwm st1)%nat then
-      if is_fin m then (mkPp (p_hwm st1) (set_chaser r false (p_levels st1)) (p_has_bp st1) (p_leader st1), e1 ++ [EDone m])
+      if (length (p_levels st1) <=? r)%nat then (st1, e1 ++ [ECrash CR_LEVEL])   (* retryState[msg.retries]: index out of range *)
+      else if is_fin m then (mkPp (p_hwm st1) (set_chaser r false (p_levels st1)) (p_has_bp st1) (p_leader st1), e1 ++ [EDone m])
       else (mkPp (p_hwm st1) (push_buf r m (p_levels st1)) (p_has_bp st1) (p_leader st1), e1)
     else if is_fin m then
       let lv := set_chaser (p_hwm st1) false (p_levels st1) in
@@ -196,28 +197,29 @@ Definition msg_key (m : msg) : tpk := (m_topic m, m_part m).
 Definition needs_retry (st : bp) (m : msg) : option Z :=
   match b_closing st with Some e => Some e | None => cur_lookup (msg_key m) (b_cur st) end.
 
-(* buffer.add and the timer arming that follows it *)
-Definition do_add (c : cfg) (st : bp) (m : msg) : bp * list effect :=
-  if m_encfail m then (st, [EErr m E_ENCODE])
+(* buffer.add and the timer arming that follows it.  The third component tells whether the run-loop
+   iteration reaches its end (where `output` is recomputed): every error path leaves it with `continue`. *)
+Definition do_add (c : cfg) (st : bp) (m : msg) : bp * list effect * bool :=
+  if m_encfail m then (st, [EErr m E_ENCODE], false)
   else
     let seqbad := c_v2 c && c_idem c &&
                   match part_lookup (msg_key m) (s_parts (b_buf st)) with
                   | Some (m0 :: _) => m_seq m <? m_seq m0
                   | _ => false
                   end in
-    if seqbad then (st, [EErr m E_SEQUENCE])
+    if seqbad then (st, [EErr m E_SEQUENCE], false)
     else
       let s := mkSet (part_add (msg_key m) m (s_parts (b_buf st))) (s_epoch (b_buf st)) in
       (mkBp (b_broker st) s (b_timer st || c_flush_freq c) (b_fired st) (b_closing st) (b_cur st) (b_wait st)
-            (b_mode st) (b_out_en st), [ENote 3 (m_id m)]).
+            (b_mode st) (b_out_en st), [ENote 3 (m_id m)], true).
 
 (* after the overflow wait: the epoch-rollover test, then add *)
-Definition after_over (c : cfg) (st : bp) (m : msg) : bp * list effect :=
-  if c_idem c && negb (s_epoch (b_buf st) =? m_epoch m) then (with_wait st (WForce m), [ENote 2 (m_id m)])
+Definition after_over (c : cfg) (st : bp) (m : msg) : bp * list effect * bool :=
+  if c_idem c && negb (s_epoch (b_buf st) =? m_epoch m) then (with_wait st (WForce m), [ENote 2 (m_id m)], false)
   else do_add c st m.
 
-Definition recv_data (c : cfg) (st : bp) (m : msg) : bp * list effect :=
-  if would_overflow c (b_buf st) m then (with_wait st (WOver m), [ENote 1 (m_id m)])
+Definition recv_data (c : cfg) (st : bp) (m : msg) : bp * list effect * bool :=
+  if would_overflow c (b_buf st) m then (with_wait st (WOver m), [ENote 1 (m_id m)], false)
   else after_over c st m.
 
 (* returnSuccesses with offsets base, base+1, ... (base = -1: offsets not assigned) *)
@@ -298,14 +300,21 @@ Inductive bp_in :=
 | BFlush                        (* output <- bp.buffer (run loop, waitForSpace or shutdown) *)
 | BResp (sent : pset) (r : resp).  (* <-bp.responses *)
 
-(* end of a run-loop iteration: output = bp.output iff timerFired || readyToFlush *)
+(* end of a run-loop iteration: output = bp.output iff timerFired || readyToFlush.  NOTE: the `continue`
+   statements of the input case (syn, bounced message, failed wait, failed add) skip this, so `output` can stay
+   enabled over an emptied buffer and an empty set is then handed to the bridge — modelled as it is. *)
 Definition end_iter (c : cfg) (st : bp) : bp :=
   match b_mode st, b_wait st with
   | MRun, WNone =>
       mkBp (b_broker st) (b_buf st) (b_timer st) (b_fired st) (b_closing st) (b_cur st) WNone MRun
            (b_fired st || ready_to_flush c (b_buf st))
-  | MDrain, _ => if set_empty (b_buf st) then with_mode st MClosed else st
   | _, _ => st
+  end.
+(* shutdown(): `for !bp.buffer.empty()` then close(bp.output) *)
+Definition drain_check (st : bp) : bp :=
+  match b_mode st with
+  | MDrain => if set_empty (b_buf st) then with_mode st MClosed else st
+  | _ => st
   end.
 
 Definition flush_enabled (st : bp) : bool :=
@@ -320,58 +329,61 @@ Definition flush_enabled (st : bp) : bool :=
 Definition flush_poll (st : bp) : bool :=
   match b_mode st, b_wait st with MRun, WNone => true | _, _ => false end.
 
-Definition bp_step (c : cfg) (ep : Z) (st : bp) (i : bp_in) : bp * list effect :=
-  let '(st', effs) :=
+(* the handler proper; the boolean says whether the run-loop iteration reaches its end *)
+Definition bp_core (c : cfg) (ep : Z) (st : bp) (i : bp_in) : bp * list effect * bool :=
     match i with
     | BRecv m =>
         match b_mode st, b_wait st with
         | MRun, WNone =>
-            if is_syn m then (with_cur st (cur_remove (msg_key m) (b_cur st)), [EDone m])
+            if is_syn m then (with_cur st (cur_remove (msg_key m) (b_cur st)), [EDone m], false)
             else match needs_retry st m with
                  | Some e =>
                      ((match b_closing st with
                        | None => if is_fin m then with_cur st (cur_remove (msg_key m) (b_cur st)) else st
                        | Some _ => st
-                       end), [retry_msg c m e])
+                       end), [retry_msg c m e], false)
                  | None => recv_data c st m
                  end
-        | _, _ => (st, [ECrash 99])     (* not reading its input: the composition never offers this *)
+        | _, _ => (st, [ECrash 99], false)     (* not reading its input: the composition never offers this *)
         end
     | BClosed =>
         match b_mode st, b_wait st with
-        | MRun, WNone => (with_mode st MDrain, [])
-        | _, _ => (st, [])
+        | MRun, WNone => (with_mode st MDrain, [], false)
+        | _, _ => (st, [], false)
         end
     | BTimer => if b_timer st && flush_poll st then (mkBp (b_broker st) (b_buf st) (b_timer st) true (b_closing st) (b_cur st)
-                                         (b_wait st) (b_mode st) (b_out_en st), [])
-                else (st, [])
+                                         (b_wait st) (b_mode st) (b_out_en st), [], true)
+                else (st, [], false)
     | BFlush =>
         if flush_enabled st then
           let st1 := with_wait (rollover st ep) WNone in
           match b_wait st with
-          | WNone => (st1, [EBridge (b_buf st)])
-          | WOver m => let '(st2, e2) := after_over c st1 m in (st2, EBridge (b_buf st) :: e2)
-          | WForce m => let '(st2, e2) := do_add c st1 m in (st2, EBridge (b_buf st) :: e2)
+          | WNone => (st1, [EBridge (b_buf st)], true)
+          | WOver m => let '(st2, e2, u) := after_over c st1 m in (st2, EBridge (b_buf st) :: e2, u)
+          | WForce m => let '(st2, e2, u) := do_add c st1 m in (st2, EBridge (b_buf st) :: e2, u)
           end
-        else (st, [])
+        else (st, [], false)
     | BResp sent r =>
         let '(st1, effs) := handle_response c ep st sent r in
         match b_wait st1 with
-        | WNone => (st1, effs)
+        | WNone => (st1, effs, true)
         | WOver m =>
             match needs_retry st1 m with
-            | Some e => (with_wait st1 WNone, effs ++ [retry_msg c m e])
-            | None => if would_overflow c (b_buf st1) m then (st1, effs)
-                      else let '(st2, e2) := after_over c (with_wait st1 WNone) m in (st2, effs ++ e2)
+            | Some e => (with_wait st1 WNone, effs ++ [retry_msg c m e], false)
+            | None => if would_overflow c (b_buf st1) m then (st1, effs, false)
+                      else let '(st2, e2, u) := after_over c (with_wait st1 WNone) m in (st2, effs ++ e2, u)
             end
         | WForce m =>
             match needs_retry st1 m with
-            | Some e => (with_wait st1 WNone, effs ++ [retry_msg c m e])
-            | None => (st1, effs)
+            | Some e => (with_wait st1 WNone, effs ++ [retry_msg c m e], false)
+            | None => (st1, effs, false)
             end
         end
-    end in
-  (end_iter c st', effs).
+    end.
+
+Definition bp_step (c : cfg) (ep : Z) (st : bp) (i : bp_in) : bp * list effect :=
+  let '(st', effs, upd) := bp_core c ep st i in
+  (drain_check (if upd then end_iter c st' else st'), effs).
 
 (* ================================================================ retryBatch goroutine (idempotent) *)
 
